@@ -36,7 +36,8 @@ PROPS = {
     "C01": dict(functions=EXPR + [B + "rhs"] + SORTED + UNPACK + PY_PRINT + [TP + "method"], lemmas=L.L1 + L.L2 + L.STAB + L.L3[:6]),
     "C02": dict(functions=[CG + "_rhs_arguments", CG + "_scheme_arguments", G + "gotran2c.get_code", B + "rhs", B + "monitor_values",
                            PP + "_print_Float", "gotranx.codegen.c.GotranCCodePrinter._print_Piecewise",
-                           "gotranx.codegen.c.GotranCCodePrinter._print_Float", "gotranx.codegen.c.bool_to_int",
+                           "gotranx.codegen.c.GotranCCodePrinter._print_Float", "gotranx.codegen.c.GotranCCodePrinter._print_Abs",
+                           "gotranx.codegen.c.GotranCCodePrinter._print_Mod", "gotranx.codegen.c.bool_to_int",
                            "frame:gotranx.codegen.c.GotranCCodePrinter"] + C_TMPL, lemmas=[]),
     "C03": dict(functions=[B + "monitor_values", B + "missing_values", B + "rhs", B + "scheme"] + J_TMPL + [
                            PP + "_print_And", PP + "_print_Or", PP + "_print_Not", PP + "_print_sign",
